@@ -1,3 +1,366 @@
-From Eupsv Require Import Base.Base Model.Expand.
-Theorem stub : True. Proof. exact I. Qed.
-Print Assumptions stub.
+(* C17 - An expanded table file reproduces the build-time versions exactly.
+   Property theorems only.  Model: Model/Expand.v (table.expandTableFile and the set-up closure it asks
+   for, on classified lines) composed with Model/Setup.v (Eups.setup) for the exact-mode replay.
+
+   Notation.  [expand_gen jfix sfix w e top plist force rd ls]: the expansion of the table lines ls of
+   product top in world w and environment e, productList plist, raw dependency lists rd; jfix / sfix select
+   the repaired (true) or the pinned (false) treatment of -j lines / of the dependencies of an optional
+   product that is not set up.  [expand] is the repaired code, [expand_pinned] the pinned tree.  The first
+   four theorems hold for every variant, every graph (rd is arbitrary: conflicts, diamonds, cycles) and
+   every environment.
+   [recorded e n v]: SETUP_<N> in e names version v.  [exact_view out] / [inexact_view out]: the lines a
+   reader of the expanded table sees with / without type == exact.  [pins_of out]: the lines
+   setupRequired/Optional(n -j v) of the exact block, as (n, v, optional). *)
+From Eupsv Require Import Base.Base Base.BaseLemmas Model.PathAlg Model.Setup Model.Expand.
+From Eupsv Require Import Proofs.PathAlg Proofs.Expand Proofs.ExpandSetup.
+From Eupsv Require Model.Cond Model.Args Model.Blocks.
+
+(* every version pinned in the exact block was set up when the table was written, or was given
+   explicitly in the productList - whatever the graph, conflicts included *)
+Theorem pins_only_setup_versions jf sf w e top plist force rd ls out o n v :
+  expand_gen jf sf w e top plist force rd ls = Ok out ->
+  In (OPin o n v) out ->
+  recorded e n v \/ alookup n plist = Some v.
+Proof. apply pins_sound. Qed.
+Print Assumptions pins_only_setup_versions.
+
+(* the exact reading holds no setup line other than the pins: every setup line it runs is -j with an
+   explicit version *)
+Theorem exact_block_is_pins_only jf sf w e top plist force rd ls out :
+  expand_gen jf sf w e top plist force rd ls = Ok out ->
+  setups_of (exact_view out) = [] /\ pins_of (exact_view out) = pins_of out.
+Proof.
+  intro E. split; [eapply exact_no_setup_line; eauto|eapply exact_view_pins; eauto].
+Qed.
+Print Assumptions exact_block_is_pins_only.
+
+(* the non-exact reading carries every setup line of the input, in order, each either unchanged or with
+   the same command, product and flags, its original expression (bracketed or relative) and, unless the
+   productList overrides it, its original explicit version; the version written is the productList's, the
+   original one, or the one that is set up *)
+Theorem keeps_inexact_constraints jf sf w e top plist force rd ls out :
+  expand_gen jf sf w e top plist force rd ls = Ok out ->
+  Forall2 (carries w e plist) (setups_in ls) (setups_of (inexact_view out)).
+Proof.
+  intro E. unfold inexact_view. rewrite (inexact_setup_lines jf sf w e top plist force rd ls out E).
+  apply Forall2_map_r. apply rewrite_carries.
+Qed.
+Print Assumptions keeps_inexact_constraints.
+
+(* lines other than setup commands pass unchanged and in order: the commands in both readings, the
+   comment lines in the non-exact reading (a comment inside a run of setup lines stays with them) *)
+Theorem passes_other_lines jf sf w e top plist force rd ls out :
+  expand_gen jf sf w e top plist force rd ls = Ok out ->
+  others_of (exact_view out) = others_in ls /\
+  others_of (inexact_view out) = others_in ls /\
+  comments_of (inexact_view out) = comments_in ls.
+Proof.
+  intro E. repeat split.
+  - eapply others_pass; eauto.
+  - eapply others_pass; eauto.
+  - eapply comments_pass; eauto.
+Qed.
+Print Assumptions passes_other_lines.
+
+(* Replay.  A later database w' still declares every pinned version (newer versions and tags are
+   arbitrary: the resolver does not appear, the decisions are the explicit versions of the exact block);
+   the top product's table in w' is the exact reading of the expanded table, followed by optional
+   dependencies that do not resolve (the implicit product); the other lines mean commands that cannot
+   fail and set no SETUP_ variable; the pinned products' own commands likewise (their setup lines are not
+   followed: -j).  Starting where none of these products is set up, Eups.setup succeeds, consumes exactly
+   the forced decisions, records the top product and every pin at its explicit version - each of which was
+   recorded when the table was written or given in the productList - and touches no other SETUP_
+   variable. *)
+Theorem exact_replay_records_pins jf sf w e top plist force rd ls out w' cfg interp ptop topv absent fuel st0 :
+  expand_gen jf sf w e top plist force rd ls = Ok out ->
+  c_max_depth cfg = None ->
+  find_pv w' top topv = Some ptop ->
+  p_actions ptop = exact_actions interp (exact_view out) ++ map absent_action absent ->
+  (forall t, Forall simple_action (interp t)) ->
+  (forall n v o, In (n, v, o) (pins_of out) ->
+     exists p, find_pv w' n v = Some p /\ Forall quiet_action (p_actions p)) ->
+  sane top -> (forall x, In x (pins_of out) -> sane (pin_name x)) ->
+  NoDup (upper_str top :: map (fun x => upper_str (pin_name x)) (pins_of out)) ->
+  alookup (setup_var top) (s_env st0) = None ->
+  (forall x, In x (pins_of out) -> alookup (setup_var (pin_name x)) (s_env st0) = None) ->
+  2 <= fuel ->
+  exists st',
+    setup w' cfg fuel st0 (forced_decisions topv (pins_of out) absent) top true 0 false = RDone true st' [] /\
+    alookup (setup_var top) (s_env st') = Some (setup_string cfg top topv) /\
+    (forall n v o, In (n, v, o) (pins_of out) ->
+       alookup (setup_var n) (s_env st') = Some (setup_string cfg n v) /\
+       (recorded e n v \/ alookup n plist = Some v)) /\
+    (forall m, upper_str m <> upper_str top ->
+       (forall x, In x (pins_of out) -> upper_str (pin_name x) <> upper_str m) ->
+       alookup (setup_var m) (s_env st') = alookup (setup_var m) (s_env st0)).
+Proof. apply replay_records. Qed.
+Print Assumptions exact_replay_records_pins.
+
+(* FULL STATEMENT (DESIGN C17):
+     conflict_free w r -> w included in w' (recorded versions still declared, tags and newer versions
+     arbitrary) -> recorded (request exact w' (expand ...)) = recorded env
+   where env is the environment the build request r produced.
+   PROVED HERE: the same conclusion with the build summarised by two hypotheses on the expansion-time
+   environment e instead of being derived from a model of the build:
+     [covered]  every product recorded in e, other than top, is pinned by the exact block at the recorded
+                version (SETUP_ variables are named after the upper-cased product, hence the comparison of
+                upper-cased names; that the block
+                is complete for the products the table's lines and their dependency lists name and that are
+                set up is [exact_block_complete] below; that a conflict-free build sets up nothing outside
+                those lists is C01's closure theorem, which does not exist yet, and is tied by the
+                correspondence check: real build, real expansion, real replay after the database evolved);
+     the productList is empty.
+   Conclusion: after the replay from a shell where nothing is set up, (a) every version recorded at build
+   time is recorded again, and (b) whatever is recorded, apart from top, was recorded at build time at that
+   very version. *)
+Theorem exact_reproduces_partial jf sf w e top force rd ls out w' cfg interp ptop topv absent fuel st0 :
+  expand_gen jf sf w e top [] force rd ls = Ok out ->
+  (forall n v, recorded e n v -> upper_str n <> upper_str top ->
+     exists x, In x (pins_of out) /\ upper_str (pin_name x) = upper_str n /\ snd (fst x) = v) ->
+  c_max_depth cfg = None ->
+  find_pv w' top topv = Some ptop ->
+  p_actions ptop = exact_actions interp (exact_view out) ++ map absent_action absent ->
+  (forall t, Forall simple_action (interp t)) ->
+  (forall n v o, In (n, v, o) (pins_of out) ->
+     exists p, find_pv w' n v = Some p /\ Forall quiet_action (p_actions p)) ->
+  sane top -> (forall x, In x (pins_of out) -> sane (pin_name x)) ->
+  NoDup (upper_str top :: map (fun x => upper_str (pin_name x)) (pins_of out)) ->
+  (forall m, alookup (setup_var m) (s_env st0) = None) ->
+  2 <= fuel ->
+  exists st',
+    setup w' cfg fuel st0 (forced_decisions topv (pins_of out) absent) top true 0 false = RDone true st' [] /\
+    alookup (setup_var top) (s_env st') = Some (setup_string cfg top topv) /\
+    (forall n v, recorded e n v -> upper_str n <> upper_str top ->
+       exists n', upper_str n' = upper_str n /\
+                  alookup (setup_var n) (s_env st') = Some (setup_string cfg n' v)) /\
+    (forall m, alookup (setup_var m) (s_env st') <> None -> upper_str m <> upper_str top ->
+       exists n v, setup_var n = setup_var m /\ recorded e n v /\
+                   alookup (setup_var m) (s_env st') = Some (setup_string cfg n v)).
+Proof. apply reproduces. Qed.
+Print Assumptions exact_reproduces_partial.
+
+(* the exact block is complete for what the table names: when no dependency list demands a product that
+   is not set up ([closed]: the closure below every line can be collected), every set-up product named by a
+   line of the table, and every set-up product in the dependency list of a line that does not carry -j, is
+   pinned at its set-up version *)
+Theorem exact_block_complete w e top force rd ls out s n v :
+  expand w e top [] force rd ls = Ok out ->
+  closed w e rd ->
+  In (LSetup s) ls -> sl_name s <> top -> recorded e (sl_name s) v -> v <> [] ->
+  (n = sl_name s \/
+   (mem_str (lit "-j") (sl_flags s) = false /\ find_pv w (sl_name s) v <> None /\
+    exists d p, In d (lookup_raw rd (sl_name s) v) /\ d_name d = n /\ find_setup_product w e n = Some p)) ->
+  exists o v', In (OPin o n v') out /\ recorded e n v'.
+Proof. apply block_complete. Qed.
+Print Assumptions exact_block_complete.
+
+(* ------------------------------------------------------------ examples *)
+
+Definition sl (opt : bool) (n : string) (flags : list str) (v : option str) (lg : option str) (orig : string) : sline :=
+  {| sl_optional := opt; sl_name := lit n; sl_flags := flags; sl_version := v; sl_rest := [];
+     sl_logical := lg; sl_orig := lit orig |}.
+Arguments sl opt n%string flags v lg orig%string.
+
+Definition xcfg : config := {| c_flavor := lit "Linux64"; c_root := lit "/s"; c_max_depth := None; c_keep := false |}.
+Definition xprod (n v : string) (acts : list action) : product :=
+  {| p_name := lit n; p_version := lit v; p_dir := lit "/s/" ++ lit n ++ lit "/" ++ lit v; p_actions := acts |}.
+Arguments xprod n%string v%string acts.
+
+(* a diamond with a version conflict: top -> b -> a 1.0, top -> c -> a 2.0; a 2.0 won *)
+Definition xworld : world :=
+  [ xprod "a" "1.0" [ASet (lit "A_HOME") (lit "one")];
+    xprod "a" "2.0" [ASet (lit "A_HOME") (lit "two"); AAlias (lit "run_a") (lit "echo a")];
+    xprod "b" "1.0" [ASetup false (lit "a") false];
+    xprod "c" "1.0" [ASetup false (lit "a") false; ASetup true (lit "zz") false];
+    xprod "d" "1.0" [ASetup false (lit "a") false];
+    xprod "top" "1.0" [] ].
+Definition xenv : amap str :=
+  [ (lit "SETUP_TOP", lit "top 1.0 -f Linux64 -Z /s"); (lit "SETUP_B", lit "b 1.0 -f Linux64 -Z /s");
+    (lit "SETUP_C", lit "c 1.0 -f Linux64 -Z /s"); (lit "SETUP_A", lit "a 2.0 -f Linux64 -Z /s");
+    (lit "PATH", lit "/bin") ].
+Definition xraw : rawdeps :=
+  [ (lit "b", lit "1.0", [ {| d_name := lit "a"; d_optional := false; d_depth := 1 |} ]);
+    (lit "c", lit "1.0", [ {| d_name := lit "a"; d_optional := false; d_depth := 1 |};
+                           {| d_name := lit "zz"; d_optional := true; d_depth := 1 |};
+                           {| d_name := lit "yy"; d_optional := false; d_depth := 2 |} ]) ].
+Definition xlines : list tline :=
+  [ LComment (lit "# deps");
+    LSetup (sl false "b" [] None None "setupRequired(b)");
+    LOther (lit "envSet(FOO, bar)");
+    LSetup (sl false "c" [] (Some (lit "1.0")) (Some (lit ">= 0.5")) "setupRequired(c 1.0 [>= 0.5])");
+    LSetup (sl true "d" [] (Some (lit ">=")) None "setupOptional(d >= 1.0)");
+    LBlank ].
+
+Example expansion_example :
+  option_map (map (fun o => String.string_of_list_ascii (render o)))
+             (match expand xworld xenv (lit "top") [] false xraw xlines with Ok out => Some out | Err _ => None end)
+  = Some [ "# deps"; "if (type != exact) {"; "setupRequired(b 1.0 [>= 1.0])"; "}"; "envSet(FOO, bar)";
+           "if (type == exact) {"; "setupRequired(b -j 1.0)"; "setupRequired(a -j 2.0)"; "setupRequired(c -j 1.0)";
+           "} else {"; "setupRequired(c 1.0 [>= 0.5])"; "setupOptional(d >= 1.0)"; "}" ]%string.
+Proof. vm_compute. reflexivity. Qed.
+
+(* the replay of that table in a database that has since gained a 3.0 and d 2.0: the hypotheses of
+   exact_replay_records_pins and exact_reproduces_partial hold, and the run gives what they say *)
+Definition xout : list oline :=
+  match expand xworld xenv (lit "top") [] false xraw xlines with Ok out => out | Err _ => [] end.
+Definition xinterp (t : str) : list action := [ASet (lit "FOO") (lit "bar")].
+Definition xworld' : world :=
+  [ xprod "a" "3.0" []; xprod "d" "2.0" [];
+    xprod "top" "1.0" (exact_actions xinterp (exact_view xout) ++ map absent_action [lit "implicitProducts"]) ] ++
+  filter (fun p => negb (str_eqb (p_name p) (lit "top"))) xworld.
+Definition xst0 : state := {| s_env := [(lit "PATH", lit "/bin")]; s_aliases := [] |}.
+
+Definition ok_out (r : res (list oline)) : option (list oline) := match r with Ok out => Some out | Err _ => None end.
+Definition shown (l : list nvo) : list (string * string * bool) :=
+  map (fun x => (String.string_of_list_ascii (fst (fst x)), String.string_of_list_ascii (snd (fst x)), snd x)) l.
+
+Example c17_hypotheses_inhabited :
+  expand xworld xenv (lit "top") [] false xraw xlines = Ok xout /\
+  (forall n v, recorded xenv n v -> upper_str n <> upper_str (lit "top") ->
+     exists x, In x (pins_of xout) /\ upper_str (pin_name x) = upper_str n /\ snd (fst x) = v) /\
+  (exists ptop, find_pv xworld' (lit "top") (lit "1.0") = Some ptop /\
+     p_actions ptop = exact_actions xinterp (exact_view xout) ++ map absent_action [lit "implicitProducts"]) /\
+  (forall t, Forall simple_action (xinterp t)) /\
+  (forall n v o, In (n, v, o) (pins_of xout) ->
+     exists p, find_pv xworld' n v = Some p /\ Forall quiet_action (p_actions p)) /\
+  sane (lit "top") /\ (forall x, In x (pins_of xout) -> sane (pin_name x)) /\
+  NoDup (upper_str (lit "top") :: map (fun x => upper_str (pin_name x)) (pins_of xout)) /\
+  (forall m, alookup (setup_var m) (s_env xst0) = None) /\
+  closed xworld xenv xraw.
+Proof.
+  assert (P : pins_of xout = [(lit "b", lit "1.0", false); (lit "a", lit "2.0", false); (lit "c", lit "1.0", false)])
+    by (vm_compute; reflexivity).
+  split; [vm_compute; reflexivity|]. split.
+  { intros n v R Hn. apply recorded_in in R. destruct R as [val [I RV]]. rewrite P.
+    unfold xenv in I. cbn [In] in I.
+    destruct I as [I|[I|[I|[I|[I|[]]]]]];
+      pose proof (f_equal fst I) as K; pose proof (f_equal snd I) as Vv; cbn [fst snd] in K, Vv; subst val;
+      vm_compute in RV; inversion RV; subst v.
+    - exfalso. apply Hn. change (setup_var (lit "top") = setup_var n) in K. apply setup_var_inj in K. now symmetry.
+    - exists (lit "b", lit "1.0", false). split; [simpl; tauto|]. split; [|reflexivity].
+      change (setup_var (lit "b") = setup_var n) in K. now apply setup_var_inj in K.
+    - exists (lit "c", lit "1.0", false). split; [simpl; tauto|]. split; [|reflexivity].
+      change (setup_var (lit "c") = setup_var n) in K. now apply setup_var_inj in K.
+    - exists (lit "a", lit "2.0", false). split; [simpl; tauto|]. split; [|reflexivity].
+      change (setup_var (lit "a") = setup_var n) in K. now apply setup_var_inj in K.
+    - exfalso. unfold setup_var in K. vm_compute in K. discriminate K. }
+  split. { eexists. split; vm_compute; reflexivity. }
+  split. { intro t. constructor; [|constructor]. apply aset_literal_ok; reflexivity. }
+  split.
+  { intros n v o I. rewrite P in I. simpl in I.
+    destruct I as [I|[I|[I|[]]]]; inversion I; subst; eexists; (split; [vm_compute; reflexivity|]).
+    - constructor; [exact Logic.I|constructor].
+    - constructor; [apply aset_literal_ok; reflexivity|]. constructor; [apply aalias_ok|constructor].
+    - constructor; [exact Logic.I|]. constructor; [exact Logic.I|constructor]. }
+  split; [reflexivity|]. split.
+  { intros x I. rewrite P in I. simpl in I. destruct I as [<-|[<-|[<-|[]]]]; reflexivity. }
+  split.
+  { rewrite P. vm_compute. repeat (constructor; [simpl; intuition discriminate|]). constructor. }
+  split.
+  { intro m. unfold xst0. simpl. destruct (str_eqb (setup_var m) (lit "PATH")) eqn:K; [|reflexivity].
+    apply str_eqb_eq in K. unfold setup_var in K. inversion K. }
+  intros n v. unfold xraw. cbn [lookup_raw].
+  destruct (str_eqb (lit "b") n && str_eqb (lit "1.0") v); [vm_compute; eexists; reflexivity|].
+  destruct (str_eqb (lit "c") n && str_eqb (lit "1.0") v); [vm_compute; eexists; reflexivity|].
+  eexists; reflexivity.
+Qed.
+
+(* and the run itself: a stays at the build-time 2.0 although 3.0 exists; d, declared since, is not set up *)
+Example replay_example :
+  match setup xworld' xcfg 2 xst0 (forced_decisions (lit "1.0") (pins_of xout) [lit "implicitProducts"])
+              (lit "top") true 0 false with
+  | RDone true st' [] =>
+      map (fun n => option_map String.string_of_list_ascii (setup_version (s_env st') (lit n)))
+          ["top"; "a"; "b"; "c"; "d"]%string
+  | _ => []
+  end = [Some "1.0"; Some "2.0"; Some "1.0"; Some "1.0"; None]%string.
+Proof. vm_compute. reflexivity. Qed.
+
+(* ------------------------------------------------------------ the pinned tree (D17 and its sibling) *)
+
+(* b came in through a line carrying -j, so its dependency a is not set up *)
+Definition jworld : world :=
+  [ xprod "a" "1.0" []; xprod "b" "1.0" [ASetup false (lit "a") false]; xprod "c" "1.0" []; xprod "top" "1.0" [] ].
+Definition jenv : amap str :=
+  [ (lit "SETUP_TOP", lit "top 1.0 -f Linux64 -Z /s"); (lit "SETUP_B", lit "b 1.0 -f Linux64 -Z /s");
+    (lit "SETUP_C", lit "c 1.0 -f Linux64 -Z /s") ].
+Definition jraw : rawdeps := [ (lit "b", lit "1.0", [ {| d_name := lit "a"; d_optional := false; d_depth := 1 |} ]) ].
+Definition jlines (opt : bool) : list tline :=
+  [ LSetup (sl false "c" [] None None "setupRequired(c)");
+    LSetup (sl opt "b" [lit "-j"] None None (if opt then "setupOptional(b -j)" else "setupRequired(b -j)")) ].
+
+(* pinned: an optional -j product is silently left out of the exact block although it is set up *)
+Example just_line_dropped_refuted_pinned :
+  option_map (fun o => shown (pins_of o)) (ok_out (expand_pinned jworld jenv (lit "top") [] false jraw (jlines true)))
+    = Some [("c", "1.0", false)]%string /\
+  option_map (fun o => shown (pins_of o)) (ok_out (expand jworld jenv (lit "top") [] false jraw (jlines true)))
+    = Some [("c", "1.0", false); ("b", "1.0", true)]%string.
+Proof. split; vm_compute; reflexivity. Qed.
+
+(* pinned: a required -j product makes the expansion abort *)
+Example just_line_aborts_refuted_pinned :
+  expand_pinned jworld jenv (lit "top") [] false jraw (jlines false) = Err NotFound /\
+  option_map (fun o => shown (pins_of o)) (ok_out (expand jworld jenv (lit "top") [] false jraw (jlines false)))
+    = Some [("c", "1.0", false); ("b", "1.0", false)]%string.
+Proof. split; vm_compute; reflexivity. Qed.
+
+(* b's optional dependency o could not be set up because o requires z, which does not exist; pinned (with
+   only the -j repair): z is demanded all the same, and b, optional in the table, is left out *)
+Definition oraw : rawdeps :=
+  [ (lit "b", lit "1.0", [ {| d_name := lit "o"; d_optional := true; d_depth := 1 |};
+                           {| d_name := lit "z"; d_optional := false; d_depth := 2 |} ]) ].
+Definition olines : list tline :=
+  [ LSetup (sl false "c" [] None None "setupRequired(c)"); LSetup (sl true "b" [] None None "setupOptional(b)") ].
+Example optional_subtree_refuted_pinned :
+  option_map (fun o => shown (pins_of o)) (ok_out (expand_gen true false jworld jenv (lit "top") [] false oraw olines))
+    = Some [("c", "1.0", false)]%string /\
+  option_map (fun o => shown (pins_of o)) (ok_out (expand jworld jenv (lit "top") [] false oraw olines))
+    = Some [("c", "1.0", false); ("b", "1.0", true)]%string.
+Proof. split; vm_compute; reflexivity. Qed.
+
+(* a diamond with a conflict (a 1.0 and a 2.0 both wanted): only the version that is set up is pinned *)
+Example conflict_pins_the_set_up_version :
+  option_map (fun o => shown (pins_of o)) (ok_out (expand xworld xenv (lit "top") [] false xraw xlines))
+    = Some [("b", "1.0", false); ("a", "2.0", false); ("c", "1.0", false)]%string.
+Proof. vm_compute. reflexivity. Qed.
+
+(* ------------------------------------------------------------ the reader of C11 on the expanded text *)
+
+(* exact_view / inexact_view stand for what Table._read makes of the generated if-blocks.  Running C11's model
+   of the real reader (Model/Blocks.v table_actions) on the rendered text agrees when the exact block is not
+   empty ... *)
+Definition nl : ascii := ascii_of_nat 10.
+Definition table_text (out : list oline) : str := join nl (map render out) ++ [nl].
+Definition cmds (r : res (list Args.action)) : list (string * list string) :=
+  match r with
+  | Ok l => map (fun a => (String.string_of_list_ascii (Args.a_cmd a), map String.string_of_list_ascii (Args.a_args a))) l
+  | Err _ => []
+  end.
+Definition exact_env : Cond.cenv := Cond.mkCenv (lit "Linux64") [lit "exact"].
+Definition inexact_env : Cond.cenv := Cond.mkCenv (lit "Linux64") [].
+
+Example reader_agrees_when_pins_exist :
+  cmds (Blocks.table_actions true (lit "top") (table_text xout) exact_env)
+    = [ ("envSet", ["FOO"; "bar"]); ("setupRequired", ["b"; "-j"; "1.0"]); ("setupRequired", ["a"; "-j"; "2.0"]);
+        ("setupRequired", ["c"; "-j"; "1.0"]) ]%string /\
+  cmds (Blocks.table_actions true (lit "top") (table_text xout) inexact_env)
+    = [ ("setupRequired", ["b"; "1.0"; "[>="; "1.0]"]); ("envSet", ["FOO"; "bar"]);
+        ("setupRequired", ["c"; "1.0"; "[>="; "0.5]"]); ("setupRequired", ["d"; ">="; "1.0"]) ]%string.
+Proof. split; vm_compute; reflexivity. Qed.
+
+(* ... and does not when nothing is pinned: C11's open finding D6 (a branch without a command) makes the
+   reader run the else branch exactly in exact mode.  This is the one input class on which the hypothesis
+   [p_actions ptop = exact_actions interp (exact_view out) ++ ...] of the replay theorems is not what the real
+   reader delivers; the check reports it as a known finding (empty exact block). *)
+Definition eout : list oline :=
+  match expand [] [] (lit "top") [] false []
+               [LOther (lit "envSet(A, c)"); LSetup (sl true "b" [] None None "setupOptional(b)")] with
+  | Ok out => out
+  | Err _ => []
+  end.
+Example empty_exact_block_refuted :
+  pins_of eout = [] /\
+  cmds (Blocks.table_actions true (lit "top") (table_text eout) exact_env)
+    = [ ("envSet", ["A"; "c"]); ("setupRequired", ["b"]) ]%string /\
+  cmds (Blocks.table_actions true (lit "top") (table_text eout) inexact_env) = [ ("envSet", ["A"; "c"]) ]%string.
+Proof. repeat split; vm_compute; reflexivity. Qed.
